@@ -146,13 +146,16 @@ class Ctx:
         r = subprocess.run([os.path.join(tr, "translator"), "-repo", REPO, "-out", gen], env=GOENV, capture_output=True, text=True, timeout=900)
         if r.returncode != 0:
             return None, "translator failed:\n" + r.stdout[-3000:] + r.stderr[-3000:]
+        ok, log = self.coqc([os.path.join(gen, f + ".v") for f in GEN_FILES], gen=gen)
+        if not ok:
+            return None, "generated files do not compile:\n" + log[-3000:]
         return gen, r.stdout
 
     def coqc(self, files, gen=None, timeout=1500):
         """Compile the given .v files (in order) inside the scratch directory. Returns (ok, log)."""
         logs = []
         for f in files:
-            cmd = ["coqc", "-Q", THEORIES, "Seccomp"]
+            cmd = ["coqc", "-Q", THEORIES, "Seccomp", "-Q", os.path.join(COQ, "oracle"), "Oracle"]
             if gen:
                 cmd += ["-Q", gen, "Gen"]
             cmd += ["-Q", os.path.join(self.scratch, "props"), "Props", f]
@@ -255,6 +258,8 @@ class Ctx:
         self.cleanup()
         return code
 
+
+GEN_FILES = ["GenTables", "GenArches", "GenNames", "GenStubs", "GenConsts"]
 
 TRUSTED_BASE = [
     "Coq 8.16.1 kernel (coqc; vm_compute used for reflection, no native_compute); coqchk in the thorough tier",
